@@ -305,9 +305,11 @@ fn do_written_to<C: Context>(ctx: &mut C, r: u32, c: u32, v: i64) -> Result<(), 
 
 fn do_req<C: Context>(ctx: &mut C, t: u32, c: u32) -> i64 {
   match c {
-    0 => ctx.require(&T(t), EqualsChecker),
-    1 => ctx.require(&T(t), OutParity).rem_euclid(2),
-    _ => { ctx.require(&T(t), AlwaysConsistent); 0 }
+    // the task key handed to `require` lives on the heap and is freed right after the call (as a caller that builds its keys
+    // dynamically would do), so that consecutive requires reuse addresses or not depending on the state of the allocator
+    0 => { let k = Box::new(T(t)); ctx.require(&*k, EqualsChecker) }
+    1 => { let k = Box::new(T(t)); ctx.require(&*k, OutParity).rem_euclid(2) }
+    _ => { let k = Box::new(T(t)); ctx.require(&*k, AlwaysConsistent); 0 }
   }
 }
 
